@@ -3,6 +3,7 @@ package c09
 
 import (
 	"bytes"
+	"errors"
 	"fmt"
 	"os"
 	"path/filepath"
@@ -147,7 +148,13 @@ func Prop(c Case, x *h.Ctx) *h.Violation {
 			for i := lo; ; i++ {
 				k, v, err := it.Next()
 				if err != nil {
-					return nil // Done or detected
+					// detected - or the end of the scan, which must not come before the last key: a scan that stops
+					// early without an error serves a shorter table ("the affected scan step fails, or the original
+					// value is returned")
+					if errors.Is(err, sstables.Done) && i < len(keys) {
+						return h.V(fp+"/"+what+"-short", "%s: %s ended without error after %d of %d keys (next key %x)", desc, what, i-lo, len(keys)-lo, keys[i])
+					}
+					return nil
 				}
 				if i >= len(keys) || !bytes.Equal(k, keys[i]) {
 					return h.V(fp+"/"+what+"-keys", "%s: %s step %d returned key %x", desc, what, i-lo, k)
